@@ -41,6 +41,33 @@ CLAIMS = {
          "tools.xor equivalence assumes a little-endian host (asserted at run time)."),
 }
 
+CLAIMS.update({
+ "C04": ("Theorems: for every PIN of 4..12 digits, admissible PAN and EVERY value of the random fill (choices in A..F^10, any 8-byte tail), decode(encode(pin)) = pin "
+         "for formats 0, 2, 3, the format 4 PIN field, and the format 4 enciphered block under every lawful 16-byte-block cipher and key. Correspondence: impl encode->decode, "
+         "and the model given the fill recovered from the impl output must reproduce the impl block byte for byte.", TECH, ""),
+ "C05": ("Theorems: nibble view of every encoder's output = the from-the-standard construction of Spec/ISO9564.v (formats 0 and 2 bit for bit; format 3 prefix exact and fill "
+         "nibbles in 10..15; format 4 PIN field, PAN field incl. short/long PAN cases; enciphered block = E(E(PIN field) xor PAN field)). Correspondence: every output nibble of impl and "
+         "model against an independent nibble construction over all PIN x PAN lengths.", TECH, "Spec files are my transcription of ISO 9564-1."),
+ "C06": ("Theorems: each decoder returns Ok p IFF the unmasked block satisfies the standard's well-formedness predicate with PIN p, otherwise ValueError (never a crash); accepted PINs are 4..12 "
+         "decimal digits; formats are mutually exclusive; format 0 PAN binding proved; format 4 binding proved at the level of the deciphered PIN field (partial: a cipher coincidence cannot be "
+         "excluded for an abstract permutation); format 3 binding is refuted by a witness and not part of the property. Correspondence: every control x length nibble, 0-2 class deviations, random blocks, PAN pairs.", TECH,
+         "Format 4 PAN binding is partial (2^-64-type coincidence not excluded)."),
+ "C12": ("Theorems: every successful wrap output is printable ASCII, <= 9999, its 4-digit length field equals its length, block-multiple total and header section, block count field = blocks "
+         "+ at most one trailing pad block <= 99, remainder = upper-case hex of block-multiple key data + MAC of the version's size; pad-block shape incl. the full-size case; header string / dump "
+         "re-load to an equal header from ANY prior state (premise: total <= 9999, boundary witness kept); limits iff. Correspondence incl. every residue, 251/252, 97..100 blocks, near 9999.", TECH,
+         "Caller blocks must not use a pad id (pb/Pb/pB/PB): documented premise with a necessity witness."),
+ "C13": ("Theorems: exact length formula of a successful wrap in terms of the masked length only; equal lengths for all keys within the effective mask (24/24/32 for T/D/A, else the given mask); "
+         "encrypted section in (2+m, 2+m+block]; number of random bytes drawn. Correspondence: versions x algorithms x masks -8..64 x key lengths 0..64 on the implementation, sample re-run on the model.", TECH, ""),
+ "C17": ("Theorems over the object model step/run: the outcome of load / unwrap and, on success, the whole resulting header are independent of the prior header state, for every reachable state "
+         "(fold_left over any op list); wrap and str leave the state unchanged and depend only on kbpk + current header. Correspondence: op sequences (all pairs, sampled triples/quadruples, longer random) on one "
+         "reused implementation object vs the model fold, plus reused-vs-fresh on the implementation.", TECH, ""),
+ "C18": ("(1) Generic Coq theorem: processes that never write the shared store do not interfere under ANY interleaving and each is where it would be alone. (2) Purity policy over write-effect summaries "
+         "REGENERATED from the current psec source by a fail-closed ast translator on every run (Gen/Effects.v), re-checked by vm_compute (C18_current_tree): no function writes module/class state or a parameter, "
+         "self is written only by the declared mutators (not by wrap/dump/str), no unknown calls/decorators/globals. Standing support: threaded shuffled workload of thousands of items vs single-threaded reference and the model.",
+         "Coq proof (generic interleaving theorem) + regenerated-from-source effect summaries checked by vm_compute + model/implementation correspondence and threaded workload",
+         "Partial: the step from the policy to 'write-free process' is the translator's abstraction (trusted); CPython/OpenSSL runtime behaviour under threads is observed, not proved."),
+})
+
 checks = []
 for p in props:
     pid = p["id"]
